@@ -281,6 +281,12 @@ func runA(tp *tape.Tape, r *core.Result) {
 	defer setLong(false)
 	input := genInput(tp)
 	nOps := tp.Range(0, maxOpsA)
+	deepS := 0
+	if tp.Draw(32) == 31 {
+		deepS = tp.Range(14, 40) // that many ops of snapshots (4 in 5) and Next calls first: nesting deeper than any fixed-size stack one might keep inline
+		nOps = maxOpsA
+		r.Inc("F11.deep_snapshot_nesting", 1)
+	}
 	ops := make([]byte, nOps)
 	depth := 0
 	burst := 0
@@ -289,6 +295,15 @@ func runA(tp *tape.Tape, r *core.Result) {
 		r.Inc("F11.long_history", 1)
 	}
 	for i := range ops {
+		if deepS > 0 && i < deepS {
+			ops[i] = 'S'
+			if i%5 == 4 {
+				ops[i] = 'N'
+			} else {
+				depth++
+			}
+			continue
+		}
 		if burst > 0 && tp.Draw(4) == 0 {
 			ops[i] = 'B'
 			burst--
